@@ -855,12 +855,19 @@ def search(ctx, broken, budget_s):
     visibly violates the property — more cases of every kind, longer runs."""
     t0 = time.time()
     rng = ctx.rng
+    drv = ctx.drv
+    try:   # core closes the model driver before it calls search(): the oracles do not need it
+        if drv is not None and (drv.p.poll() is not None or drv.p.stdin.closed):
+            ctx.drv = None
+    except Exception:
+        ctx.drv = None
     while time.time() - t0 < budget_s and not any(f.concrete and f.key != KNOWN_DEFECT_KEY for f in ctx.findings):
         case = gen_case(rng, True, rng.choice(["trace", "trace", "converge"]))
         if case["kind"] == "trace":
             case["methods"] = case["methods"] + [rng.choice(["1site", "2site"]) for _ in range(2)]
             case["variants"] = True
         run_case(ctx, case)
+    ctx.drv = drv
     ctx.notes.append(f"search: {time.time() - t0:.0f}s of additional random cases")
 
 
